@@ -1,12 +1,56 @@
 from driver import Unit
+
 LEVEL = "other"
 HARNESS_FILES = ["verif_ring.rs"]
 P = "nested::verif_ring::"
+TR = ["Layer::to_ring", "Layer::decode_hash", "Layer::nside_time", "Layer::first_hash_in_eqr", "Layer::minus_nside_x_4nside", "ring::triangular_number_x4", "div2_quotient"]
+FR = ["Layer::from_ring", "ring::polar_cap_ring_index", "ring::triangular_number_x4", "Layer::build_hash_from_parts", "depth0_hash_unsafe", "Layer::div_by_nside_floor_u8", "Layer::modulo_nside"]
+MANIFEST = dict(
+    category="other",
+    text="Per depth, with ALL cells symbolic: to_ring is proved to be an order isomorphism onto [0,12*4^d) for the RING order of the cell centres taken from an independent integer geometry (in range, strictly monotone in (ring from the north, x in [0,8)), hence injective, hence bijective); from_ring(to_ring(h)) == h; ring-scheme centre == nested centre of from_ring(r), bit for bit. These are complete proofs for the depths they finish at (order: 0..12, inverse: 0..6, centre: 0..2); the nonlinear ring-start arithmetic defeats SAT beyond, so deeper depths get TIME-BOUNDED REFUTATION SEARCHES with the same obligations (a violation found there is reported with a native replay; finding nothing is labelled inconclusive, never proved). The repaired float-sqrt step (polar_cap_ring_index) has its own contract. Bounded in depth => level 'other', not 'proof'.",
+    note="Plane order == (latitude descending, longitude ascending) assumes unproj is monotone (argued). Depths above the stated ones are searched, not proved. CBMC's IEEE sqrt model is trusted for the ring-index contract.",
+    technique="Kani per-depth full-domain harnesses (CBMC) on the real to_ring/from_ring vs an integer-geometry order; time-bounded CBMC refutation search at high depth",
+)
+EXPLANATION = ("Complete per depth where listed as proved_units; searches (coverage.time_bounded_refutation_searches) are budgeted CBMC runs at depths where the proof does not finish: they decide nothing when they time out. "
+               "A Verus proof of the nonlinear integer core for all depths is the planned replacement (DESIGN §5 C10).")
+ASSUMPTIONS = ["order of centres in the projection plane (y descending, then x ascending in [0,8)) equals (latitude descending, longitude ascending in [0,2pi)): unproj monotone, argued from the formulae",
+               "depths not listed under proved_units are NOT proved (only searched for counterexamples within a time budget)",
+               "Layer::new(depth) used directly"]
+TRUSTED_BASE = ["Kani 0.68 / CBMC 6.11 (incl. its IEEE-754 sqrt model)", "harness/verif_spec.rs integer geometry (cell_center)"]
+
+ISO_Q, ISO_T = [0, 1, 2, 4, 8], list(range(0, 13))
+RT_Q, RT_T = [0, 1, 2], list(range(0, 7))
+CTR_Q, CTR_T = [0], [0, 1, 2]
+SEARCH_Q = [16, 29]
+SEARCH_T = [13, 16, 20, 24, 26, 27, 28, 29]
+
+
+def tiers(d, q, t):
+    r = []
+    if d in q: r.append("quick")
+    if d in t: r.append("thorough")
+    return tuple(r)
+
+
 def units():
     us = []
+    for nm, dom in (("lt_2p10", "h < 2^10"), ("2p10_2p20", "2^10 <= h < 2^20"), ("2p20_2p40", "2^20 <= h < 2^40"), ("2p40_2p53", "2^40 <= h < 2^53"), ("2p53_2p62", "2^53 <= h < 2^62 (where the float sqrt is inexact)")):
+        us.append(Unit("pcri_contract_" + nm, P + "pcri_contract_" + nm, ["ring::polar_cap_ring_index", "ring::triangular_number_x4"],
+                       "contract: polar_cap_ring_index(h) = r with 2r(r+1) <= h < 2(r+1)(r+2), %s" % dom, kind="search" if nm != "lt_2p10" else "proof", timeout=240, level="B", bound=dom))
     for d in range(30):
         dd = "%02d" % d
-        us.append(Unit("ring_iso_d" + dd, P + "ring_iso_d" + dd, ["Layer::to_ring"], "x", timeout=600))
-        us.append(Unit("ring_rt_d" + dd, P + "ring_rt_d" + dd, ["Layer::to_ring", "Layer::from_ring"], "x", timeout=600))
-        us.append(Unit("ring_ctr_d" + dd, P + "ring_ctr_d" + dd, ["Layer::from_ring"], "x", timeout=600))
+        t = tiers(d, ISO_Q, ISO_T)
+        if t:
+            us.append(Unit("ring_iso_d" + dd, P + "ring_iso_d" + dd, TR, "depth %d: to_ring in range and strictly monotone w.r.t. (ring from north, x) of the centres for any two cells => bijection realising the RING order" % d, tiers=t, timeout=1500, level="B", bound="depth %d (all cells)" % d))
+        t = tiers(d, SEARCH_Q, SEARCH_T)
+        if t:
+            us.append(Unit("ring_iso_search_d" + dd, P + "ring_iso_d" + dd, TR, "depth %d: same obligation, time-bounded refutation search" % d, kind="search", tiers=t, timeout=240 if "quick" in t else 900, level="B"))
+            us.append(Unit("ring_rt_search_d" + dd, P + "ring_rt_d" + dd, TR + FR, "depth %d: from_ring(to_ring(h)) == h, time-bounded refutation search" % d, kind="search", tiers=t, timeout=240 if "quick" in t else 900, level="B"))
+        t = tiers(d, RT_Q, RT_T)
+        if t:
+            us.append(Unit("ring_rt_d" + dd, P + "ring_rt_d" + dd, TR + FR, "depth %d: from_ring(to_ring(h)) == h for all cells" % d, tiers=t, timeout=1500, level="B", bound="depth %d (all cells)" % d))
+        t = tiers(d, CTR_Q, CTR_T)
+        if t:
+            us.append(Unit("ring_ctr_d" + dd, P + "ring_ctr_d" + dd, FR + ["ring::center_of_projected_cell", "Layer::center_of_projected_cell"], "depth %d: ring centre of r == nested centre of from_ring(r), bit for bit, all r" % d, tiers=t, timeout=1500, level="B", bound="depth %d (all cells)" % d))
+    us.append(Unit("ring_canary_d02", P + "ring_canary_d02", TR, "vacuity guard", kind="canary"))
     return us
